@@ -70,3 +70,8 @@ check("C14", "exploration",
   "Sequential, one schedule (the property has no schedule quantifier); numbers compared by value.",
   "bounded-exhaustive enumeration of inputs executed on the implementation, compared with a reference (identity / reference substitution)",
   "DESIGN.md section 4 C14")
+check("C20", "exploration",
+  "Bounded-exhaustive enumeration of models on the real parser, serialisers, deploy path and tree builder: every structural shape up to the node budget, a skeleton with every node kind and each of ~100 optional-field toggles singly and in pairs (unicode text, vars of every JSON type, conditions, jumps, needs/else/run, setup and hook acts, nested catches and timeouts, events, ver), generated ids; per model YAML and JSON round trips and the stored text are compared field by field with the GIVEN JSON (not with the engine's own serialisation), four deploys check the version count and the event rows, the tree text is compared with an independently computed (level, kind, id) list; duplicate ids at every pair of nodes must be rejected, an unknown model cannot be started.",
+  "No engine run (the property quantifies over programs only); catch and timeout bodies are not rendered in the tree text.",
+  "bounded-exhaustive enumeration of models executed on the implementation, compared with the given model and an independently computed tree",
+  "DESIGN.md section 4 C20")
